@@ -1,6 +1,7 @@
 mod checks;
 mod clock;
 mod common;
+mod comp;
 mod gen;
 mod lockstep;
 mod sut;
@@ -46,39 +47,63 @@ fn run_check(id: &str, tier: &str) -> i32 {
     let seed = seed_from_env();
     let t = Timer::start();
     let stats = Stats::default();
+    let mut outs: Vec<checks::CheckOutcome> = Vec::new();
+    let mut rules: Vec<String> = Vec::new();
+    let mut assumptions: Vec<String> = Vec::new();
+    let mut engines: Vec<String> = Vec::new();
     if let Some(chk) = checks::ls_check(id) {
-        let out = checks::run_ls_check(&chk, tier, seed, &stats);
-        let spec = EvidenceSpec {
-            prop: id,
-            tier,
-            seed,
-            rule: chk.rule,
-            assumptions: chk.assumptions.iter().map(|s| s.to_string()).collect(),
-            extra: serde_json::json!({"engine": "lockstep (E1)", "profile": chk.profile.name}),
-        };
-        write_evidence(&spec, &stats, t.elapsed(), out.violation.is_some() as usize);
-        if let Some(h) = out.inconclusive {
-            println!("INCONCLUSIVE property={} {}", id, h);
-            return 2;
-        }
-        if let Some((msg, path)) = out.violation {
-            println!("counterexample: {}", msg);
-            println!("VIOLATION property={} replay={}", id, path);
-            return 1;
-        }
-        println!(
-            "OK property={} tier={} seed={} cases={} nontrivial_distinct={} wall={:.1}s",
-            id,
-            tier,
-            seed,
-            stats.evaluations.load(std::sync::atomic::Ordering::Relaxed),
-            stats.nontrivial_hashes.lock().len(),
-            t.elapsed().as_secs_f64()
-        );
-        return 0;
+        outs.push(checks::run_ls_check(&chk, tier, seed, &stats));
+        rules.push(chk.rule.to_string());
+        assumptions.extend(chk.assumptions.iter().map(|s| s.to_string()));
+        engines.push(format!("lockstep E1 (profile {})", chk.profile.name));
     }
-    eprintln!("no check for {}", id);
-    2
+    let failed = |outs: &Vec<checks::CheckOutcome>| outs.iter().any(|o| o.violation.is_some() || o.inconclusive.is_some());
+    for part in checks::comp_parts(id) {
+        if failed(&outs) {
+            break;
+        }
+        outs.push(checks::run_comp_part(id, &part, tier, seed, &stats));
+        engines.push(format!("component E4 ({})", part.engine));
+    }
+    let (r, a) = checks::comp_rule(id);
+    if !r.is_empty() {
+        rules.push(r.to_string());
+        assumptions.extend(a.iter().map(|s| s.to_string()));
+    }
+    if engines.is_empty() {
+        eprintln!("no check for {}", id);
+        return 2;
+    }
+    let violation = outs.iter().find_map(|o| o.violation.clone());
+    let inconclusive = outs.iter().find_map(|o| o.inconclusive.clone());
+    let spec = EvidenceSpec {
+        prop: id,
+        tier,
+        seed,
+        rule: &rules.join(" || "),
+        assumptions,
+        extra: serde_json::json!({"engines": engines}),
+    };
+    write_evidence(&spec, &stats, t.elapsed(), violation.is_some() as usize);
+    if let Some(h) = inconclusive {
+        println!("INCONCLUSIVE property={} {}", id, h);
+        return 2;
+    }
+    if let Some((msg, path)) = violation {
+        println!("counterexample: {}", msg);
+        println!("VIOLATION property={} replay={}", id, path);
+        return 1;
+    }
+    println!(
+        "OK property={} tier={} seed={} cases={} nontrivial_distinct={} wall={:.1}s",
+        id,
+        tier,
+        seed,
+        stats.evaluations.load(std::sync::atomic::Ordering::Relaxed),
+        stats.nontrivial_hashes.lock().len(),
+        t.elapsed().as_secs_f64()
+    );
+    0
 }
 
 fn run_replay(id: &str, file: &str) -> i32 {
@@ -109,9 +134,20 @@ fn run_replay(id: &str, file: &str) -> i32 {
                 1
             }
         }
-        other => {
-            eprintln!("unknown engine {}", other);
-            2
-        }
+        other => match checks::replay_comp(other, v["case"].clone()) {
+            None => {
+                eprintln!("unknown engine {}", other);
+                2
+            }
+            Some(Ok(())) => {
+                println!("replay: property {} held on this case", id);
+                0
+            }
+            Some(Err(m)) => {
+                println!("counterexample: {}", m);
+                println!("VIOLATION property={} replay={}", id, file);
+                1
+            }
+        },
     }
 }
